@@ -1,0 +1,44 @@
+//go:build verif
+
+// Machine-checked contracts for package hrw (comment-only; read by /verif/govc).
+// Properties C21 (hash ring replica sets) and C22 (rendezvous ordering).
+//
+// The score of a node is a float computed from a hash; it is not interpreted. The contracts below
+// state what does not depend on it: the node list is a sequence that AddNode extends and
+// GetOrderedNodes returns a permuted copy of (all of it, or a prefix of length n).
+
+package hrw
+
+// The sorted view: Len and Swap are what sort.Sort uses to permute the slice.
+//@ func RendezvousNodesByScore.Len
+//@   ensures result == len(a.nodes)
+
+//@ func RendezvousNodesByScore.Swap
+//@   requires 0 <= i && i < len(a.nodes) && 0 <= j && j < len(a.nodes)
+//@   modifies mem a.nodes
+//@   ensures swapped: a.nodes[i] == old(a.nodes[j]) && a.nodes[j] == old(a.nodes[i])
+//@   ensures others: forall k int :: 0 <= k && k < len(a.nodes) && k != i && k != j ==> a.nodes[k] == old(a.nodes[k])
+
+// AddNode appends a fresh node with the given label and weight; earlier nodes keep their place.
+//@ func RendezvousHash.AddNode
+//@   requires rh != nil
+//@   modifies rh.Nodes, mem rh.Nodes
+//@   ensures grown: len(rh.Nodes) == old(len(rh.Nodes)) + 1
+//@   ensures appended: rh.Nodes[len(rh.Nodes)-1] != nil && fresh(rh.Nodes[len(rh.Nodes)-1]) && rh.Nodes[len(rh.Nodes)-1].Label == seed && rh.Nodes[len(rh.Nodes)-1].Weight == weight && rh.Nodes[len(rh.Nodes)-1].RHash == rh
+//@   ensures kept: forall i int :: 0 <= i && i < old(len(rh.Nodes)) ==> rh.Nodes[i] == old(rh.Nodes[i])
+
+// GetOrderedNodes returns a fresh slice: a permutation of the node list cut to its first n
+// entries (all of them when n is at least the number of nodes). The node list is unchanged.
+//@ func RendezvousHash.GetOrderedNodes
+//@   requires rh != nil && n >= 0
+//@   ensures all: n >= len(rh.Nodes) ==> len(result) == len(rh.Nodes)
+//@   ensures prefix: n < len(rh.Nodes) ==> len(result) == n
+//@   ensures drawn: forall i int :: 0 <= i && i < len(result) ==> (exists j int :: 0 <= j && j < len(rh.Nodes) && result[i] == rh.Nodes[j])
+//@   ensures injective: forall i int, k int :: 0 <= i && i < k && k < len(result) && (forall a int, b int :: 0 <= a && a < b && b < len(rh.Nodes) ==> rh.Nodes[a] != rh.Nodes[b]) ==> result[i] != result[k]
+//@   ensures complete: n >= len(rh.Nodes) ==> (forall j int :: 0 <= j && j < len(rh.Nodes) ==> (exists i int :: 0 <= i && i < len(result) && result[i] == rh.Nodes[j]))
+//@   ensures isfresh: fresh(result)
+//@   ensures unchanged: len(rh.Nodes) == old(len(rh.Nodes)) && (forall j int :: 0 <= j && j < len(rh.Nodes) ==> rh.Nodes[j] == old(rh.Nodes[j]))
+
+// A new hash has no nodes.
+//@ func NewRendezvousHash
+//@   ensures result != nil && fresh(result) && len(result.Nodes) == 0
